@@ -1,7 +1,7 @@
 (* C19 -- Entrez client stays within the request rate and reuses its file cache. Statements only. *)
 From Coq Require Import List ZArith Bool NArith.
 Import ListNotations.
-From SV Require Import Text G_entrez C19_Model C19_Lemmas C19_Rate2.
+From SV Require Import Text G_entrez C19_Model C19_Lemmas C19_Rate2 C19_Client.
 Open Scope Z_scope.
 
 (* for every call history (arrival gaps, sleep overshoots, request durations all arbitrary non-negative): the request N
@@ -118,6 +118,139 @@ Example C19_witness_keys :
   let cs := [(false, c0); (true, c0); (true, c0); (true, c0); (false, c0); (false, c0)] in
   Forall (fun kc => call_ok (snd kc)) cs /\ rev (hist (run2 cs)) = [0; 0; 0; 0; 1024; 1024].
 Proof. exact witness_keys. Qed.
+
+(* ---- round 7: the whole client (run_C19_client): fetch_seq decision table, histories, reader oracle, file names ---- *)
+(* complete decision table of fetch_seq for one id: what is requested, written, returned and recorded, for every combination of
+   cache name (None / Some), file state, overwrite and outcome of the HTTP layer (answer / exception) *)
+Theorem C19_fetch_decision_table : forall s o id a,
+  let fn := cache_name o id in let need := need_request (c_fs s) fn (o_ow o) in
+  let s' := fst (fetch_one s o id a) in let e := snd (fetch_one s o id a) in
+  e_req e = need /\ e_name e = fn /\ e_ow e = o_ow o /\ e_ans e = a_ans a /\ e_key e = o_key o /\
+  c_fs s' = (if need then match a_ans a, fn with Ans pl, Some n => fs2_set n pl (c_fs s) | _, _ => c_fs s end else c_fs s) /\
+  e_res e = (if need then match a_ans a with
+                          | Fail h => RExc h
+                          | Ans pl => match fn with None => RHandle pl | Some n => RName n end
+                          end
+             else match fn with Some n => RName n | None => RHandle [] end) /\
+  (need = false -> s' = s) /\
+  (need = true -> let c := {| gap := c_pend s; eps := a_eps a; dur := a_dur a |} in
+       c_rate s' = step (limit (o_key o)) window (c_rate s) c /\ c_pend s' = 0 /\ c_calls s' = (o_key o, c) :: c_calls s /\
+       e_start e = hd 0 (hist (c_rate s')) /\ e_slept e = hd 0 (slept (c_rate s'))).
+Proof. exact fetch_one_table. Qed.
+Print Assumptions C19_fetch_decision_table.
+
+Theorem C19_need_request_iff : forall f fn ow,
+  need_request f fn ow = true <->
+  (fn = None \/ exists n, fn = Some n /\ (fs2_get n f = None \/ fs2_get n f = Some [] \/ ow = true)).
+Proof. exact need_request_iff. Qed.
+Print Assumptions C19_need_request_iff.
+
+(* which directory: a non-empty path= wins, else client.path (None: no cache; '': the working directory) *)
+Theorem C19_eff_path_table : forall o,
+  eff_path o = match o_path o with Some (c :: r) => Some (c :: r) | _ => o_self o end /\
+  forall id, (cache_name o id = None <-> eff_path o = None).
+Proof. exact (fun o => conj (eff_path_table o) (cache_name_none o)). Qed.
+Print Assumptions C19_eff_path_table.
+
+(* cache_once at full strength: ANY history of public calls from ANY state - the number of requests for file n is bounded by
+   (1 unless a non-empty file was there) + (calls on n with overwrite) + (requests for n that failed or were answered empty) *)
+Theorem C19_cache_request_bound : forall n ops s,
+  let es := concat (snd (do_ops s ops)) in
+  (cnt (is_req n) es <= phi n (c_fs s) + cnt (is_ow n) es + cnt (is_bad n) es)%nat.
+Proof. exact cache_request_bound. Qed.
+Print Assumptions C19_cache_request_bound.
+
+Theorem C19_cache_once_history : forall n ops s,
+  let es := concat (snd (do_ops s ops)) in
+  cnt (is_ow n) es = 0%nat -> cnt (is_bad n) es = 0%nat ->
+  (cnt (is_req n) es <= 1)%nat /\ (good2 n (c_fs s) = true -> cnt (is_req n) es = 0%nat).
+Proof. exact cache_once_history. Qed.
+Print Assumptions C19_cache_once_history.
+
+(* after any history the file holds the answer to the last successful request for it (or what it held before) *)
+Theorem C19_file_is_last_answer : forall n ops s,
+  let r := do_ops s ops in
+  fs2_get n (c_fs (fst r)) = fold_left (fun c e => upd n e c) (concat (snd r)) (fs2_get n (c_fs s)).
+Proof. exact file_is_last_answer. Qed.
+Print Assumptions C19_file_is_last_answer.
+
+(* fetch_basket / get_basket: one fetch_seq per id occurrence in list order until the first exception; duplicates are not merged *)
+Theorem C19_basket_shape : forall o ids env s,
+  let es := snd (fetch_list s o ids env) in
+  (length es <= length ids)%nat /\
+  (forallb (fun e => negb (is_exc (e_res e))) es = true -> length es = length ids) /\
+  map e_name es = firstn (length es) (map (cache_name o) ids).
+Proof. exact fetch_list_shape. Qed.
+Print Assumptions C19_basket_shape.
+
+Theorem C19_basket_nocache_requests_all : forall o, eff_path o = None -> forall ids env s,
+  forallb e_req (snd (fetch_list s o ids env)) = true.
+Proof. exact fetch_list_nocache. Qed.
+Print Assumptions C19_basket_nocache_requests_all.
+
+(* the reader is an oracle (any function read : text -> records): a call that requests and is answered pl returns the first record
+   of read(pl) whether or not there is a cache directory; a call that finds the file returns the first record of read(content) *)
+Theorem C19_get_requested : forall (R : Type) (read : str -> option (list R)) s o id a pl, a_ans a = Ans pl ->
+  need_request (c_fs s) (cache_name o id) (o_ow o) = true ->
+  get_seq_result R read (c_fs (fst (fetch_one s o id a))) (snd (fetch_one s o id a)).(e_res) = first_of R (read pl).
+Proof. exact get_requested. Qed.
+Print Assumptions C19_get_requested.
+
+Theorem C19_get_cached : forall (R : Type) (read : str -> option (list R)) s o id a n v,
+  cache_name o id = Some n -> fs2_get n (c_fs s) = Some v -> v <> [] -> o_ow o = false ->
+  fetch_one s o id a = (s, snd (fetch_one s o id a)) /\ (snd (fetch_one s o id a)).(e_req) = false /\
+  get_seq_result R read (c_fs s) (snd (fetch_one s o id a)).(e_res) = first_of R (read v).
+Proof. exact get_cached. Qed.
+Print Assumptions C19_get_cached.
+
+Theorem C19_get_basket_reads_in_order : forall (R : Type) (read : str -> option (list R)) f rs, read_all R read f rs =
+  fold_right (fun r acc => match delivered f r with
+                           | Some c => match read c, acc with Some x, Some y => Some (x ++ y) | _, _ => None end
+                           | None => None end) (Some []) rs.
+Proof. exact read_all_spec. Qed.
+Print Assumptions C19_get_basket_reads_in_order.
+
+(* file names: id.ext is injective for extensions without a dot, and not otherwise; ids without slash stay in the directory *)
+Theorem C19_basename_inj : forall i e i' e', has_byte dot e = false -> has_byte dot e' = false ->
+  basename i e = basename i' e' -> i = i' /\ e = e'.
+Proof. exact basename_inj. Qed.
+Print Assumptions C19_basename_inj.
+
+Theorem C19_basename_collision : exists i e i' e', (i, e) <> (i', e') /\ basename i e = basename i' e'.
+Proof. exact basename_collision. Qed.
+Print Assumptions C19_basename_collision.
+
+Theorem C19_fname_in_dir : forall p i e, has_byte slash i = false ->
+  fname p i e = if (Nat.eqb (length p) 0) || ends_with_slash p then p ++ basename i e else p ++ slash :: basename i e.
+Proof. exact fname_in_dir. Qed.
+Print Assumptions C19_fname_in_dir.
+
+Theorem C19_fname_inj : forall p i e i' e', has_byte slash i = false -> has_byte slash i' = false ->
+  has_byte dot e = false -> has_byte dot e' = false -> fname p i e = fname p i' e' -> i = i' /\ e = e'.
+Proof. exact fname_inj. Qed.
+Print Assumptions C19_fname_inj.
+
+Theorem C19_fname_absolute_id : forall p i e, starts_with_slash i = true -> fname p i e = basename i e.
+Proof. exact fname_absolute_id. Qed.
+Print Assumptions C19_fname_absolute_id.
+
+(* the requests of the whole client are a limiter history: any history of public calls (cache hits in between, failing requests,
+   key switches) has no one-second window with more than the larger limit of starts; with one key setting, that setting's limit *)
+Theorem C19_client_window_limit : forall f ops x, forallb op_okb ops = true ->
+  (count_in_window window x (hist (c_rate (fst (do_ops (cl_init f) ops)))) <= limit true)%nat.
+Proof. exact client_window_limit. Qed.
+Print Assumptions C19_client_window_limit.
+
+Theorem C19_client_window_limit_const : forall key f ops x, forallb op_okb ops = true -> Forall (fun o => o_key o = key) ops ->
+  (count_in_window window x (hist (c_rate (fst (do_ops (cl_init f) ops)))) <= limit key)%nat.
+Proof. exact client_window_limit_const. Qed.
+Print Assumptions C19_client_window_limit_const.
+
+Example C19_witness_client :
+  forallb op_okb [w_op; w_op] = true /\
+  map (map e_req) (snd (do_ops (cl_init []) [w_op; w_op])) = [[true]; [false]] /\
+  cnt (is_req (bs "R/p0/AB0001.1.fasta"%bs)) (concat (snd (do_ops (cl_init []) [w_op; w_op]))) = 1%nat.
+Proof. exact witness_client. Qed.
 
 (* non-vacuity: a burst of five immediate calls without API key; the 4th must wait a full window *)
 Example C19_witness :
